@@ -1797,7 +1797,15 @@ func c12_runC12(e *Env) {
 		"pid, uid, args, user lookups, every file operation with relative and absolute paths over two mounts, mkdir_temp, stdio); every session is run " +
 		"twice, with the real process in two different working directories / environments / temp / home directories holding look-alike files; " +
 		"directed part: every state-changing operation x every argument x every observer, every operation alone; random part seeded; a violating " +
-		"session is shrunk step by step before it is reported. Non-trivial when the model predicts >= 1 answer"
+		"session is shrunk step by step before it is reported. Non-trivial when the model predicts >= 1 answer. " +
+		"Third part (process level, every session in a child process): a case is (subset of the 15 option groups of NewVirtualOS given or left at their default " +
+		"{exit handler, stdin, stdout, stderr, args, pid, uid, hostname, cwd, environment, tmp, user dirs, mounts, current user, group}, route, execution context " +
+		"{top level, closure, builtin callback, spawn(), go, f.spawn(), clone-call, imported-module function/body, host-level Clone()+Call(), nested 0-3}, " +
+		"1-7 operations: os.exit with every argument form {none, 0, non-zero incl. 255/256/-1/2^40, error value, wrong type, two arguments}, pid, uid, hostname, " +
+		"args, stdin/stdout/stderr, print/printf/fmt.println, current user and user/group lookups, cwd and environment); directed: every exit form alone, " +
+		"every {handler, stdin, stdout, stderr} combination x {no, every} other option x every exit form, every context kind x every exit form x {without, with} handler, " +
+		"every observer under each option alone/missing; random part seeded (thorough: all 2^15 option subsets); the parent judges from the child's records and exit status " +
+		"whether the script terminated the real process"
 	w, err := c12NewWorld()
 	if err != nil {
 		e.R.Note("cannot create the sentinel world: %v", err)
@@ -1985,6 +1993,8 @@ func c12_runC12(e *Env) {
 	}
 	stage("VirtualOS sessions")
 	c12RunVirtualSessions(e, w)
+	stage("VirtualOS process sessions")
+	c12RunProcessSessions(e, w)
 	if c12Retries > 0 {
 		e.R.Note("%d case(s) ran into the 10 s bound and were re-run with a 90 s bound", c12Retries)
 	}
